@@ -1,6 +1,6 @@
 (* C14 — sticky assignor: every StickyAbs run preserves single ownership by potential
-   consumers; StickyCtl runs (the checked skeleton of the real executor) are StickyAbs runs
-   when every previous-owner target is a potential consumer; their results are valid. *)
+   consumers; StickyCtl runs (the checked skeleton of the real executor) are StickyAbs runs;
+   their results are valid. *)
 From Coq Require Import Arith List Bool Lia PeanoNat.
 From Verif Require Import C14_Assignors C14_lists C14_Sticky C14_checkers.
 Import ListNotations.
@@ -148,9 +148,6 @@ Proof.
 Qed.
 
 (* ------------------------------------------------------------------ StickyCtl refines StickyAbs *)
-Definition prev_ok (ppt : layout) (ms : members_t) (prev : list ((nat * nat) * nat)) : Prop :=
-  forall x c, prev_get prev x = Some c -> potential_b ppt ms c x = true.
-
 Lemma least_loaded_In : forall st cs c, least_loaded st cs = Some c -> In c cs.
 Proof.
   induction cs as [|a r IH]; simpl; intros c H; [discriminate|].
@@ -210,11 +207,11 @@ Proof.
 Qed.
 
 Lemma ctl_reassign_abs : forall ppt ms prev sc st mv r st' mv' sn,
-  prev_ok ppt ms prev -> sound ppt ms st ->
+  sound ppt ms st ->
   ctl_reassign ppt ms prev sc (st, mv) r = Some (st', mv') ->
   abs_step ppt ms (st, sn) (AMove (snd r) (snd (fst r))) = Some (st', sn).
 Proof.
-  intros ppt ms prev sc st mv [[x c'] q] st' mv' sn Hprev [Hn Hp] H.
+  intros ppt ms prev sc st mv [[x c'] q] st' mv' sn [Hn Hp] H.
   unfold ctl_reassign in H. simpl.
   destruct (is_balanced_b ppt ms st sc); [discriminate|].
   destruct (negb (movable_b ppt ms x)); [discriminate|].
@@ -225,8 +222,9 @@ Proof.
   inversion H; subst.
   assert (Hx : potential_b ppt ms c' x = true).
   { unfold prev_trigger in Gt. destruct (prev_get prev x) as [pc|] eqn:Epv.
-    - destruct (load_sc st sc pc + 1 <? load st c).
-      + apply Nat.eqb_eq in Gt. subst. apply Hprev; auto.
+    - destruct (mem_nat pc (potentials ppt ms x) && (load_sc st sc pc + 1 <? load st c)) eqn:Ept.
+      + apply Nat.eqb_eq in Gt. subst. apply andb_true_iff in Ept. destruct Ept as [Ept _].
+        apply mem_nat_In in Ept. apply potentials_In in Ept. tauto.
       + apply andb_true_iff in Gt. destruct Gt as [_ Gt]. apply opt_nat_eqb_eq in Gt.
         apply least_loaded_In in Gt. apply filter_In in Gt. tauto.
     - apply andb_true_iff in Gt. destruct Gt as [_ Gt]. apply opt_nat_eqb_eq in Gt.
@@ -240,10 +238,10 @@ Proof.
 Qed.
 
 Lemma ctl_reassign_sound : forall ppt ms prev sc st mv r st' mv',
-  prev_ok ppt ms prev -> sound ppt ms st ->
+  sound ppt ms st ->
   ctl_reassign ppt ms prev sc (st, mv) r = Some (st', mv') -> sound ppt ms st'.
 Proof.
-  intros. pose proof (ctl_reassign_abs _ _ _ _ _ _ _ _ _ None H H0 H1) as A.
+  intros. pose proof (ctl_reassign_abs _ _ _ _ _ _ _ _ _ None H H0) as A.
   assert (I : abs_inv ppt ms (st, None)) by (split; simpl; auto; discriminate).
   apply (proj1 (abs_step_inv _ _ _ _ _ I A)).
 Qed.
@@ -257,15 +255,15 @@ Lemma ctl_reassigns_cons : forall ppt ms prev sc s r rest,
 Proof. reflexivity. Qed.
 
 Lemma ctl_reassigns_abs : forall ppt ms prev sc rs st mv st' mv' sn,
-  prev_ok ppt ms prev -> sound ppt ms st ->
+  sound ppt ms st ->
   ctl_reassigns ppt ms prev sc (st, mv) rs = Some (st', mv') ->
   abs_run ppt ms (st, sn) (map (fun r => AMove (snd r) (snd (fst r))) rs) = Some (st', sn).
 Proof.
-  induction rs as [|r rest IH]; intros st mv st' mv' sn Hprev Hs H.
+  induction rs as [|r rest IH]; intros st mv st' mv' sn Hs H.
   - simpl in H. inversion H; auto.
   - rewrite ctl_reassigns_cons in H.
     destruct (ctl_reassign ppt ms prev sc (st, mv) r) as [[st1 mv1]|] eqn:E; [|discriminate].
-    cbn [map]. rewrite abs_run_cons, (ctl_reassign_abs _ _ _ _ _ _ _ _ _ sn Hprev Hs E).
+    cbn [map]. rewrite abs_run_cons, (ctl_reassign_abs _ _ _ _ _ _ _ _ _ sn Hs E).
     eapply IH; eauto. eapply ctl_reassign_sound; eauto.
 Qed.
 
@@ -301,12 +299,12 @@ Qed.
 
 (* an accepted log is a StickyAbs run ending in the final state *)
 Theorem ctl_run_is_abs_run : forall ppt ms prev st0 assigns reassigns obs r,
-  prev_ok ppt ms prev -> NoDup (map snd st0) ->
+  NoDup (map snd st0) ->
   ctl_run ppt ms prev st0 assigns reassigns obs = Some r ->
   abs_run ppt ms (st0, None) (ctl_aops assigns reassigns (cr_reverted r))
   = Some (cr_final r, Some (cr_prebalance r)).
 Proof.
-  intros ppt ms prev st0 assigns reassigns obs r Hprev Hn H.
+  intros ppt ms prev st0 assigns reassigns obs r Hn H.
   destruct (ctl_run_inv _ _ _ _ _ _ _ _ H) as [st3 [mv [E2 [Ec [E3 [Ee [Eb [Er Ef]]]]]]]].
   unfold ctl_aops. simpl.
   rewrite (abs_run_app _ _ _ _ _ _ (ctl_assigns_abs _ _ _ _ _ None E2)). simpl.
@@ -315,24 +313,24 @@ Proof.
       by (split; simpl; [apply drop_sound; auto | discriminate]).
     apply (proj1 (abs_run_inv _ _ _ _ _ I (ctl_assigns_abs _ _ _ _ _ None E2))). }
   rewrite (abs_run_app _ _ _ _ _ _
-             (ctl_reassigns_abs _ _ _ _ _ _ _ _ _ (Some (cr_prebalance r)) Hprev Hs2 E3)).
+             (ctl_reassigns_abs _ _ _ _ _ _ _ _ _ (Some (cr_prebalance r)) Hs2 E3)).
   rewrite Er, Ef. destruct obs; reflexivity.
 Qed.
 
 (* c14_sticky_valid, part 2: the result of an accepted log is a valid assignment *)
 Theorem ctl_run_valid : forall ppt ms prev st0 assigns reassigns obs r,
-  ids_nodup ms -> prev_ok ppt ms prev -> NoDup (map snd st0) ->
+  ids_nodup ms -> NoDup (map snd st0) ->
   ctl_run ppt ms prev st0 assigns reassigns obs = Some r ->
   valid ppt ms (cr_final r) /\ valid ppt ms (cr_prebalance r) /\ valid ppt ms (cr_balanced r).
 Proof.
-  intros ppt ms prev st0 assigns reassigns obs r Hi Hprev Hn H.
+  intros ppt ms prev st0 assigns reassigns obs r Hi Hn H.
   destruct (ctl_run_inv _ _ _ _ _ _ _ _ H) as [st3 [mv [E2 [Ec [E3 [Ee [Eb [Er Ef]]]]]]]].
   assert (I : abs_inv ppt ms (drop ppt ms st0, None))
     by (split; simpl; [apply drop_sound; auto | discriminate]).
   assert (Hs2 : sound ppt ms (cr_prebalance r))
     by apply (proj1 (abs_run_inv _ _ _ _ _ I (ctl_assigns_abs _ _ _ _ _ None E2))).
   assert (Hc2 : complete ppt ms (cr_prebalance r)) by (apply complete_b_spec; auto).
-  pose proof (ctl_reassigns_abs _ _ _ _ _ _ _ _ _ None Hprev Hs2 E3) as A3.
+  pose proof (ctl_reassigns_abs _ _ _ _ _ _ _ _ _ None Hs2 E3) as A3.
   assert (Hs3 : sound ppt ms st3).
   { assert (I2 : abs_inv ppt ms (cr_prebalance r, None)) by (split; simpl; auto; discriminate).
     apply (proj1 (abs_run_inv _ _ _ _ _ I2 A3)). }
